@@ -24,7 +24,8 @@ def runner_tasks(tier):
             {"module": "stateful", "task": "C07", "name": "stateful", "kind": "bounded", "clause": "re-used wavelength buffers; caller's array untouched"},
             {"module": "c09", "task": "steps", "name": "first-touch steps", "kind": "eval", "arg": {"groups": ["neutron"]}, "clause": "every first touch of the neutron data serves the rows of the table", "timeout": 1500},
             {"module": "c10", "task": "steps", "name": "private-table steps", "kind": "eval", "arg": {"modules": ["nsf"], "clauses": ["t"]},
-             "clause": "nsf.init on a private table (before or after the public data were first used, again, after edits): the private table serves the rows of the table", "timeout": 1500}]
+             "clause": "nsf.init on a private table (before or after the public data were first used, again, after edits): the private table serves the rows of the table", "timeout": 1500},
+            {"module": "independence", "task": "observations", "name": "independence", "kind": "bounded", "arg": {"tags": ["C07"]}, "clause": "fixed observations give the same value as the first use of the library in a fresh interpreter, in a warmed-up interpreter (twice) and in reverse order, and have their documented value", "timeout": 900}]
 
 
 REPLAY = {"module": "c07", "task": "replay"}
